@@ -15,7 +15,25 @@ import (
 	vr "github.com/echovault/sugardb/internal/verifrt"
 )
 
+// gCmdPart / gCmdParts: a harness that covers a module in several parts (to keep each part well
+// inside its wall-clock budget) takes the commands whose table position is gCmdPart modulo gCmdParts.
+var gCmdPart, gCmdParts int
+
 func c13Commands(s *SugarDB, module string) []internal.Command {
+	all := c13AllCommands(s, module)
+	if gCmdParts <= 1 {
+		return all
+	}
+	var out []internal.Command
+	for i, c := range all {
+		if i%gCmdParts == gCmdPart {
+			out = append(out, c)
+		}
+	}
+	return out
+}
+
+func c13AllCommands(s *SugarDB, module string) []internal.Command {
 	var out []internal.Command
 	for _, c := range s.commands {
 		// the lexicographic commands inspect members byte by byte: they are exercised with byte
@@ -114,12 +132,13 @@ func c13Module(module string, preferKind int) {
 	vr.Reach("end")
 }
 
-func Verif_C13_Generic()   { c13Module(constants.GenericModule, gStr) }
-func Verif_C13_String()    { c13Module(constants.StringModule, gStr) }
-func Verif_C13_Hash()      { c13Module(constants.HashModule, gHash) }
-func Verif_C13_List()      { c13Module(constants.ListModule, gList) }
-func Verif_C13_Set()       { c13Module(constants.SetModule, gSet) }
-func Verif_C13_SortedSet() { c13Module(constants.SortedSetModule, gZSet) }
+func Verif_C13_Generic()     { c13Module(constants.GenericModule, gStr) }
+func Verif_C13_String()      { c13Module(constants.StringModule, gStr) }
+func Verif_C13_Hash()        { c13Module(constants.HashModule, gHash) }
+func Verif_C13_List()        { c13Module(constants.ListModule, gList) }
+func Verif_C13_Set()         { c13Module(constants.SetModule, gSet) }
+func Verif_C13_SortedSet_A() { gCmdPart, gCmdParts = 0, 2; c13Module(constants.SortedSetModule, gZSet) }
+func Verif_C13_SortedSet_B() { gCmdPart, gCmdParts = 1, 2; c13Module(constants.SortedSetModule, gZSet) }
 
 // Verif_C13_StoreNoAlias: a STORE command never makes the destination share its container with a
 // source; shown by identity and by a follow-up write to the destination.
